@@ -383,7 +383,58 @@ def law_match(w, rng, n_bind):
                 prev = (md, pd, W)
     return n, fails
 
+def print_alike_cases():
+    """a wildcard that occurs twice must be bound CONSISTENTLY: the two matched sub-expressions are equal (==), not merely printed alike.
+       Pairs that print alike and differ: a register and a plain identifier of the same name, constants of equal value and different width."""
+    from miasmx.expression import expression as E
+    from miasmx.tools.modint import uint1, uint8, uint16, uint32
+    out = []
+    def case(name, mk):
+        out.append((name, mk))
+    def c1():
+        A = E.ExprId('A', 1)
+        return E.ExprOp('^', E.ExprId('zf', 1, is_reg=True), E.ExprId('zf', 1)), E.ExprOp('^', A, A), [A], False
+    def c2():
+        A = E.ExprId('A', 32)
+        return E.ExprOp('+', E.ExprId('eax', 32, False, True), E.ExprId('eax', 32)), E.ExprOp('+', A, A), [A], False
+    def c3():
+        A = E.ExprId('A', 32); x = E.ExprId('x', 32)
+        return E.ExprCond(E.ExprInt(uint1(1)), x, E.ExprInt(uint32(1))), E.ExprCond(A, x, A), [A], False
+    def c4():
+        A = E.ExprId('A', 8)
+        e = E.ExprCompose([(E.ExprId('c', 8), 0, 8), (E.ExprId('c', 8, is_reg=True), 8, 16)])
+        return e, E.ExprCompose([(A, 0, 8), (A, 8, 16)]), [A], False
+    def c5():
+        A = E.ExprId('A', 8)
+        e = E.ExprCompose([(E.ExprId('c', 8), 0, 8), (E.ExprId('c', 8), 8, 16)])
+        return e, E.ExprCompose([(A, 0, 8), (A, 8, 16)]), [A], True
+    def c6():
+        A = E.ExprId('A', 16)
+        return E.ExprOp('&', E.ExprInt(uint16(0x7f)), E.ExprSlice(E.ExprInt(uint32(0x7f)), 0, 16)), E.ExprOp('&', A, E.ExprSlice(A, 0, 16)), [A], False
+    for n, f in (('reg-vs-id:1', c1), ('reg-vs-id:32', c2), ('const-width:cond', c3), ('reg-vs-id:compose', c4), ('same:compose', c5), ('const-width:slice', c6)):
+        case(n, f)
+    return out
+
+def law_print_alike():
+    from miasmx.expression.expression import MatchExpr
+    fails = []
+    for name, mk in print_alike_cases():
+        e, m, tks, want = mk()
+        try:
+            r = MatchExpr(e, m, tks)
+        except Exception as ex:
+            fails.append(('match.print-alike', 'MatchExpr raised %s: %s' % (type(ex).__name__, ex), name)); continue
+        ok = (r is not False and r is not None)
+        if ok != want:
+            fails.append(('match.print-alike', 'MatchExpr(%s, %s, %s) = %s: the two occurrences of the wildcard meet %s' % (
+                e, m, [str(t) for t in tks], r, 'equal sub-expressions' if want else 'sub-expressions that print alike but are different (== is False)'), name))
+    return fails
+
 def replay(law, args):
+    if args[0] == 'print-alike':
+        fails = [f for f in law_print_alike() if f[2] == args[1]]
+        for f in fails: print('%s: %s' % (f[0], f[1]))
+        return 1 if fails else 0
     if args[0] == 'reads':
         fails = law_reads(args[1])
     elif args[0] == 'matchseq':
@@ -468,6 +519,14 @@ def main(argv):
                 run.ob(oid, ENGINE_ERR, 'BND', 'cpython-enum', detail='native replay does not confirm (rc=%s): %s | %s' % (rc, detail, outp[-300:]))
     run.bulk('law instances', total - nfail, 'BND', 'cpython-enum+z3', 0.0, BOUNDED_OK)
     run.bulk('dependency queries with solver unknown', sum(r['unknown'] for r in results), 'BND', 'z3', 0.0, DOWNGRADED)
+    # repeated wildcards against sub-expressions that print alike (native, directed)
+    pa = law_print_alike()
+    for (law, detail, name) in pa:
+        oid = 'C16:%s[%s]' % (law, name)
+        script = REPLAY % dict(verif=common.VERIF, repo=common.REPO, law=law, args=('print-alike', name))
+        rp = run.write_replay(oid, {'obligation': oid, 'detail': detail}, script)
+        run.ob(oid, FAILED, 'BND', 'cpython-enum', detail=detail, witness=rp, confirmed=True, func='MatchExpr')
+    run.bulk('repeated-wildcard cases with print-alike operands', len(print_alike_cases()) - len(pa), 'BND', 'cpython-enum', 0.0, BOUNDED_OK)
     # inductive per-class steps of get_r / get_w on the real method bodies (Engine A)
     try:
         from checks import C16smt
